@@ -29,7 +29,7 @@ STUB_GROW = "kani::stub smallvec::SmallVec::try_grow -> panic (strings/keys/numb
 
 PROPS = {}
 
-HOOK_COMMITS = ["ebc560a"]
+HOOK_COMMITS = ["ebc560a", "6057354", "a1c2a09"]
 
 NOTES = (
 	"Technique family: solver-based checking of the real code. Every check is a set of Kani proof harnesses over "
